@@ -13,7 +13,8 @@ the TypeError of calling the missing validate method of an `Any` member. -/
 def Src (E : Env) (e : Exc) : Prop :=
   (∃ x, index x = .error e) ∨ (∃ x, asDouble x = .error e) ∨ (∃ x, asComplex x = .error e) ∨
   (∃ t x, E.cast t x = .error e) ∨ (∃ x c, E.adapt x c = .error e) ∨
-  (∃ m x, Val.pyEq m x = .raises e) ∨ (∃ f x, E.fn f x = .error e) ∨ e = .typeError
+  (∃ m x, Val.pyEq m x = .raises e) ∨ (∃ f x, E.fn f x = .error e) ∨ (∃ f x, E.pred f x = .error e) ∨
+  e = .typeError
 
 variable {E : Env}
 
@@ -29,8 +30,10 @@ theorem Src.ofEq {e : Exc} {m x : Val} (h : Val.pyEq m x = .raises e) : Src E e 
   Or.inr (Or.inr (Or.inr (Or.inr (Or.inr (Or.inl ⟨m, x, h⟩)))))
 theorem Src.ofFn {e : Exc} {f : Nat} {x : Val} (h : E.fn f x = .error e) : Src E e :=
   Or.inr (Or.inr (Or.inr (Or.inr (Or.inr (Or.inr (Or.inl ⟨f, x, h⟩))))))
+theorem Src.ofPred {e : Exc} {f : Nat} {x : Val} (h : E.pred f x = .error e) : Src E e :=
+  Or.inr (Or.inr (Or.inr (Or.inr (Or.inr (Or.inr (Or.inr (Or.inl ⟨f, x, h⟩)))))))
 theorem Src.typeError : Src E .typeError :=
-  Or.inr (Or.inr (Or.inr (Or.inr (Or.inr (Or.inr (Or.inr rfl))))))
+  Or.inr (Or.inr (Or.inr (Or.inr (Or.inr (Or.inr (Or.inr (Or.inr rfl)))))))
 
 theorem asInteger_err {v : Val} {e : Exc} (h : asInteger v = .error e) : index v = .error e := by
   unfold asInteger at h
@@ -299,6 +302,44 @@ theorem srcP_baseTuple (items : List TraitType) : SrcP E (.baseTuple items) := b
     exact absurd (by simpa [ctraitValidate, ctraitValidateWith, descOf, hasPy] using h) (hpy v e)
   · intro v e h; exact absurd h (hpy v e)
 
+theorem srcP_validatedTuple (items : List TraitType) (fv : Option Nat) : SrcP E (.validatedTuple items fv) := by
+  have hpy : ∀ v e, pyValidate E (.validatedTuple items fv) v = .raised e → Src E e := by
+    intro v e h
+    simp only [pyValidate] at h
+    have key : ∀ ws, (match fv with
+          | none => Res.ok (.tuple false ws)
+          | some f =>
+            match E.pred f (.tuple false ws) with
+            | .ok true => Res.ok (.tuple false ws)
+            | .ok false => Res.traitError
+            | .error e => Res.raised e) = .raised e → Src E e := by
+      intro ws hres
+      cases fv with
+      | none => simp at hres
+      | some f =>
+        simp only at hres
+        cases hp : E.pred f (.tuple false ws) with
+        | error e' => simp [hp] at hres; subst hres; exact Src.ofPred hp
+        | ok b => cases b <;> simp [hp] at hres
+    rcases v with a | ⟨sub, vs⟩ | vs
+    · simp at h
+    · simp only at h
+      split at h
+      · cases hr : ctraitValidateL E items vs with
+        | error x => simp [hr] at h
+        | ok ws => simp only [hr] at h; exact key ws h
+      · simp at h
+    · simp only at h
+      split at h
+      · cases hr : ctraitValidateL E items vs with
+        | error x => simp [hr] at h
+        | ok ws => simp only [hr] at h; exact key ws h
+      · simp at h
+  refine ⟨?_, ?_, hpy⟩
+  · intro d v e x hd; simp [descOf] at hd
+  · intro v e h
+    exact hpy v e (by simpa [ctraitValidate, ctraitValidateWith, descOf, hasPy] using h)
+
 theorem srcP_union (alts : List TraitType) (hQ : SrcQ E alts) : SrcP E (.union alts) := by
   obtain ⟨_, _, r3, _⟩ := hQ
   refine ⟨?_, ?_, ?_⟩
@@ -382,6 +423,7 @@ theorem srcP_all (hE : CastIdem E) : ∀ t, SrcP E t :=
       cases t <;> simp [TraitType.subs] at hs
       case tuple items => subst hs; exact srcP_tuple E items hQ
       case baseTuple items => exact srcP_baseTuple E items
+      case validatedTuple items fv => exact srcP_validatedTuple E items fv
       case union alts => subst hs; exact srcP_union E alts hQ
       case either alts wn =>
         subst hs
